@@ -14,8 +14,11 @@ from .lib import AbstractJob, Job, PureScheduler, Scheduler
 class SimError(Exception):
     """the unique exception instance raised by one job body"""
 
-    def __init__(self, nid):
-        super().__init__("boom in " + nid)
+    def __init__(self, nid, noargs=False):
+        if noargs:
+            super().__init__()          # like a bare `raise ValueError`
+        else:
+            super().__init__("boom in " + nid)
         self.nid = nid
 
 
@@ -185,7 +188,7 @@ class _JobMixin(_NodeMixin):
             ctx.log('exit', nid, 'cancelled')
             raise
         if outcome == 'exc':
-            exc = SimError(nid)
+            exc = SimError(nid, noargs=bool(spec.get('exc_noargs')))
             ctx.objs.setdefault(nid, {})['exc'] = exc
             ctx.log('exit', nid, 'exc')
             raise exc
